@@ -17,6 +17,18 @@ DECRYPTORS = ('_decryptSSL2', '_decryptAndUnseal', '_macThenDecrypt', '_decryptT
 def _mk_decrypt_hook(name):
     def h(ex, recv, args, kwargs, st, fr, node):
         r = fresh_opaque('plain_' + name)
+        if name != '_decryptSSL2' and 'header' in st.env and 'data' in st.env:
+            # C17 "a fatal alert received from the peer is surfaced as such": in TLS 1.3 the peer may abort before it has keys;
+            # its short plaintext alert arriving as the first record under the new read keys must not be fed to the AEAD
+            # (it would turn the peer's alert into a local bad_record_mac)
+            import ast as _ast
+
+            def ev(src):
+                outs = ex.eval(_ast.parse(src, mode='eval').body, st.fork(), fr)
+                return truthy(outs[0].val)
+            early_alert = z3.And(ev('self._is_tls13_plus()'), ev('header.type == ContentType.alert'), ev('len(data) < 3'),
+                                 ev('self._readState'), ev('self._readState.encContext'), ev('self._readState.seqnum == 0'))
+            ex.oblige(st, 'early-plaintext-alert-of-TLS1.3-is-not-decrypted@%s' % name, z3.Not(early_alert), kind='m2')
         st.events.append((name, args, r))
         st.ghost['authenticated'] = VBool(z3.BoolVal(True))      # by the contracts of C02 a normal return means the tag matched
         st.ghost['auth_by'] = VInt(DECRYPTORS.index(name))
